@@ -9,6 +9,9 @@ package main
 // covered ONLY here — the evidence says so.
 
 import (
+	"unsafe"
+	"syscall"
+	"runtime"
 	"math/big"
 	"crypto/x509"
 	"bytes"
@@ -622,13 +625,25 @@ func enumSweep(c *h.Ctx) {
 	}
 }
 
-// best-of-3 timing of f
+// threadCPU: the CPU time consumed by the calling OS thread (CLOCK_THREAD_CPUTIME_ID). Unlike wall-clock time it does
+// not grow while the thread waits for a processor, so measurements stay usable on a loaded machine.
+func threadCPU() time.Duration {
+	var ts syscall.Timespec
+	if _, _, e := syscall.Syscall(syscall.SYS_CLOCK_GETTIME, 3, uintptr(unsafe.Pointer(&ts)), 0); e != 0 {
+		return time.Duration(time.Now().UnixNano())
+	}
+	return time.Duration(ts.Nano())
+}
+
+// best-of-5 timing of f, in CPU time of the (locked) thread that runs it
 func bestOf(f func()) time.Duration {
+	runtime.LockOSThread()
+	defer runtime.UnlockOSThread()
 	best := time.Duration(1 << 62)
-	for i := 0; i < 3; i++ {
-		t0 := time.Now()
+	for i := 0; i < 5; i++ {
+		t0 := threadCPU()
 		f()
-		if d := time.Since(t0); d < best {
+		if d := threadCPU() - t0; d < best {
 			best = d
 		}
 	}
@@ -754,13 +769,20 @@ func timingProbes(c *h.Ctx) {
 		t1 := bestOf(func() { f.run(b1) })
 		t2 := bestOf(func() { f.run(b2) })
 		ratio := float64(t2) / float64(t1+1)
-		// a loaded machine makes single measurements noisy: an alarm needs the ratio to stay high in 3 more rounds
-		for round := 0; round < 3 && ratio >= 3.2; round++ {
-			t1 = bestOf(func() { f.run(b1) })
-			t2 = bestOf(func() { f.run(b2) })
-			if r2 := float64(t2) / float64(t1+1); r2 < ratio {
-				ratio = r2
+		// a loaded machine makes single measurements noisy (other processes evict the caches): an alarm needs the ratio
+		// of the BEST times over up to 12 more rounds to stay high (noise only ever adds time; a quadratic decoder stays
+		// near 4 however often it is measured)
+		for round := 0; round < 12 && ratio >= 3.2; round++ {
+			if round >= 3 {
+				time.Sleep(time.Duration(20*round) * time.Millisecond)
 			}
+			if d := bestOf(func() { f.run(b1) }); d < t1 {
+				t1 = d
+			}
+			if d := bestOf(func() { f.run(b2) }); d < t2 {
+				t2 = d
+			}
+			ratio = float64(t2) / float64(t1+1)
 		}
 		in := fmt.Sprintf("timing %s n=%d (%d B) vs 2n (%d B)", f.name, f.n, len(b1), len(b2))
 		// linear: ratio about 2. Quadratic: about 4. Below 1 ms the measurement is noise and is not judged.
